@@ -267,6 +267,10 @@ Definition task_remap (olds news : list Fragment) : outcome (list (N * option N)
   transpose (live_addrs olds) (map digest_of olds) (map digest_of news).
 
 (* ================================================================ 4. table contents *)
+(* group.old_fragments, looked up in the manifest by id (only the ids of old_fragments are read at commit) *)
+Definition lookup_old (existing : list Fragment) (ids : list N) : list Fragment :=
+  flat_map (fun i => match find (fun f => fr_id f =? i) existing with Some f => [f] | None => [] end) ids.
+
 Section Content.
 Variable V : Type.
 (* EXTERNAL: the user-column values of the row stored at physical position [o] of a fragment whose data files
@@ -298,6 +302,96 @@ Definition live_cells (f : Fragment) : list V := map (cell (fr_files f)) (live_o
 (* HYPOTHESIS on a committed group (the scan -> write round trip of rewrite_files): its new data files hold the
    user-column values of the live rows of its old fragments, in task order *)
 Definition cells_ok (existing : list Fragment) (g : RewriteGroup) : Prop :=
-  flat_map live_cells (rg_new g) = flat_map live_cells (lookup_old existing (rg_old g))
-with lookup_old_dummy := tt.
+  flat_map live_cells (rg_new g) = flat_map live_cells (lookup_old existing (rg_old g)).
 End Content.
+Arguments mkVrow {V}.
+Arguments v_rid {V}.
+Arguments v_created {V}.
+Arguments v_updated {V}.
+Arguments v_val {V}.
+
+(* ================================================================ 5. what a committed Rewrite looks like *)
+Definition n_incl (a b : list N) : bool := forallb (fun x => n_mem x b) a.
+
+(* One group of a Rewrite against the manifest it was planned on: the old fragments exist, and the new
+   fragments are - as metadata - what [exec_task] computes for SOME file sizes (those the new fragments have),
+   ids (those they carry) and data files (theirs); every new data file stores a live field. *)
+Definition group_ok (stable : bool) (existing : list Fragment) (g : RewriteGroup) : bool :=
+  let olds := lookup_old existing (rg_old g) in
+  negb (is_nil (rg_old g))
+  && n_incl (rg_old g) (frag_ids existing)
+  && match exec_task stable olds (map phys_n (rg_new g)) (frag_ids (rg_new g)) (map fr_files (rg_new g)) with
+     | Ok l => list_eqb fragment_eqb l (rg_new g)
+     | _ => false
+     end
+  && (sum_n (map phys_n (rg_new g)) =? total_live olds)
+  && forallb (fun f => forallb has_live_field (fr_files f)) (rg_new g).
+
+(* ids carried by new fragments: 0 = assigned at commit; others were reserved (ReserveFragments) *)
+Definition reserved_of (groups : list RewriteGroup) : list N :=
+  filter (fun i => negb (i =? 0)) (frag_ids (flat_map rg_new groups)).
+
+Definition groups_ok (m : Manifest) (groups : list RewriteGroup) : bool :=
+  forallb (group_ok (uses_stable m) (m_fragments m)) groups
+  && nodup_n (flat_map rg_old groups)
+  && nodup_n (reserved_of groups)
+  && forallb (fun i => negb (n_mem i (frag_ids (m_fragments m)))
+                       && match max_fragment_id m with Some mx => i <=? mx | None => false end) (reserved_of groups).
+
+(* E4 *)
+Definition versions_paired (l : list Fragment) : bool :=
+  forallb (fun f => implb (is_some (fr_created_at f)) (is_some (fr_updated_at f))) l.
+
+(* E3 for the fragments of a task *)
+Definition remap_dom (olds news : list Fragment) : bool :=
+  forallb (fun f => (fr_id f <? two32) && (0 <? phys_n f) && (phys_n f <? two32)
+                    && deletion_ok (phys_n f) (fr_deletion f)) olds
+  && nodup_n (frag_ids olds)
+  && forallb (fun f => (fr_id f <? two32) && (phys_n f <? two32)) news
+  && nodup_n (frag_ids news)
+  && (sum_n (map phys_n news) =? total_live olds)
+  (* MissingAddrs reads address 0 when row_addrs is exhausted: "guaranteed to not match" only if *)
+  && (negb (total_live olds =? 0) || negb (match olds with f :: _ => fr_id f =? 0 | [] => false end)).
+
+(* ================================================================ 6. correspondence checkers *)
+Definition chk_plan (i : copts * list fmetric) (o : outcome (list (list N))) : bool :=
+  outcome_eqb (list_eqb ln_eqb) (plan_compaction (fst i) (snd i)) o.
+
+(* a real task: ((stable, exact_chunks), target, old fragments) -> the new fragments it returned.
+   exact_chunks = false (legacy storage): the file sizes are taken from the output *)
+Definition chk_task (i : (bool * bool) * N * list Fragment) (o : list Fragment) : bool :=
+  let '((stable, exact), target, olds) := i in
+  let sizes := if exact then chunk_sizes target (total_live olds) else map phys_n o in
+  outcome_eqb (list_eqb fragment_eqb) (exec_task stable olds sizes (frag_ids o) (map fr_files o)) (Ok o)
+  && (sum_n (map phys_n o) =? total_live olds)
+  && (if stable then forallb (fun f => fr_id f =? 0) o
+      else nodup_n (frag_ids o) && forallb (fun f => negb (fr_id f =? 0)) o).
+
+Definition kv_eqb := pair_eqb N.eqb (option_eqb N.eqb).
+(* transpose_row_addrs: (row_addrs ascending, old digests, new digests) -> the HashMap sorted by key *)
+Definition chk_transpose (i : list N * list (N * N) * list (N * N)) (o : outcome (list (N * option N))) : bool :=
+  let '(addrs, olds, news) := i in
+  let dg := map (fun p => mkDigest (fst p) (snd p)) in
+  outcome_eqb (list_eqb kv_eqb) (transpose addrs (dg olds) (dg news)) o.
+
+(* a real task (address-style row ids, remap not deferred): its row_id_map is [task_remap] *)
+Definition chk_task_remap (i : list Fragment * list Fragment) (o : list (N * option N)) : bool :=
+  outcome_eqb (list_eqb kv_eqb) (task_remap (fst i) (snd i)) (Ok o).
+
+(* the hypotheses of C13_content_invariant / C13_remap_bijection hold for every real compaction *)
+Definition chk_groups_ok (i : Manifest * list RewriteGroup) (o : bool) : bool :=
+  Bool.eqb (groups_ok (fst i) (snd i) && versions_paired (m_fragments (fst i))) o.
+Definition chk_remap_dom (i : list Fragment * list Fragment) (o : bool) : bool :=
+  Bool.eqb (remap_dom (fst i) (snd i)) o.
+
+(* the abstraction function against the real scanner: (address, _rowid if stable, created, updated) of every
+   row of a full ordered scan *)
+Definition obs_row (f : Fragment) (o : N) : N * (option N * (N * N)) :=
+  (row_address (fr_id f) o,
+   (match fr_row_ids f with Some ids => nth_error ids (N.to_nat o) | None => None end,
+    (nth (N.to_nat o) (match fr_created_at f with Some l => l | None => n_rep (phys_n f) 1 end) 1,
+     nth (N.to_nat o) (match fr_updated_at f with Some l => l | None => n_rep (phys_n f) 1 end) 1))).
+Definition obs_rows (l : list Fragment) : list (N * (option N * (N * N))) :=
+  flat_map (fun f => map (obs_row f) (live_offsets f)) l.
+Definition chk_scan (m : Manifest) (o : list (N * (option N * (N * N)))) : bool :=
+  list_eqb (pair_eqb N.eqb (pair_eqb (option_eqb N.eqb) (pair_eqb N.eqb N.eqb))) (obs_rows (m_fragments m)) o.
